@@ -21,7 +21,7 @@ import (
 func ruleNoAbortiveClose(w *World, r *Report, rule string) {
 	var bad []string
 	n := 0
-	for fn := range allModuleFuncs(w, w.SSA()) {
+	for _, fn := range sortedModuleFuncs(w, w.SSA()) {
 		for _, c := range callsIn(fn) {
 			f := sCallee(c)
 			if f == nil || f.Name() != "SetLinger" || f.Pkg() == nil || f.Pkg().Path() != "net" {
@@ -46,7 +46,7 @@ func ruleNoAbortiveClose(w *World, r *Report, rule string) {
 func ruleSortComparatorIndexesSortedSlice(w *World, r *Report, rule string, inScope func(pkgPath string) bool) {
 	n := 0
 	var bad []string
-	for fn := range allModuleFuncs(w, w.SSA()) {
+	for _, fn := range sortedModuleFuncs(w, w.SSA()) {
 		f0 := fn
 		for f0.Parent() != nil {
 			f0 = f0.Parent()
@@ -147,7 +147,7 @@ func ruleSortComparatorIndexesSortedSlice(w *World, r *Report, rule string, inSc
 func ruleSingleReadIsNotFull(w *World, r *Report, rule string, inScope func(pkgPath string) bool) {
 	n := 0
 	var bad []string
-	for fn := range allModuleFuncs(w, w.SSA()) {
+	for _, fn := range sortedModuleFuncs(w, w.SSA()) {
 		f0 := fn
 		for f0.Parent() != nil {
 			f0 = f0.Parent()
@@ -567,7 +567,7 @@ func constStrVal(v ssa.Value) (string, bool) {
 // otherwise Close hangs behind a writer that is stuck on a dead carrier and the socket is never released.
 func ruleCloseDoesNotWaitForPeer(w *World, r *Report, rule string) {
 	n := 0
-	for fn := range allModuleFuncs(w, w.SSA()) {
+	for _, fn := range sortedModuleFuncs(w, w.SSA()) {
 		if fn.Name() != "Close" || fn.Signature.Recv() == nil || fn.Pkg == nil || fn.Pkg.Pkg.Path() != modPath+"/internal/streams" {
 			continue
 		}
@@ -810,7 +810,7 @@ func ruleSecureFlagIsTheListenersOwn(w *World, r *Report, rule string) {
 	}
 	n := 0
 	var fns []*ssa.Function
-	for fn := range allModuleFuncs(w, w.SSA()) {
+	for _, fn := range sortedModuleFuncs(w, w.SSA()) {
 		fns = append(fns, fn)
 	}
 	sort.Slice(fns, func(i, j int) bool { return fns[i].Pos() < fns[j].Pos() })
@@ -1166,7 +1166,7 @@ func ruleNoClientSessionResumption(w *World, r *Report, rule string) {
 		return
 	}
 	var bad []string
-	for fn := range allModuleFuncs(w, w.SSA()) {
+	for _, fn := range sortedModuleFuncs(w, w.SSA()) {
 		allInstrs(fn, func(in ssa.Instruction) {
 			st, ok := in.(*ssa.Store)
 			if !ok {
@@ -1384,7 +1384,7 @@ func c06NoWriteIntoNilHeaderMap(w *World, r *Report) {
 	rule := "R06.6"
 	n := 0
 	var fns []*ssa.Function
-	for fn := range allModuleFuncs(w, w.SSA()) {
+	for _, fn := range sortedModuleFuncs(w, w.SSA()) {
 		if fn.Pkg != nil && fn.Pkg.Pkg.Path() == modPath+"/internal/socketace" {
 			fns = append(fns, fn)
 		}
@@ -5756,26 +5756,66 @@ func ruleCloseWakesBlockedReaders(w *World, r *Report, rule string) {
 					}
 				}
 				nmark++
-				okp := enumPaths(g, nil, func(in ssa.Instruction) bool { return markEv(in) || qEv(in) }, nil, func(e pathExit) {
-					if _, isRet := e.Last.(*ssa.Return); !isRet {
-						return
-					}
-					marked, closedQ := false, false
-					for _, ev := range e.State.Events {
-						if qEv(ev) {
-							closedQ = true
+				var badHere []string
+				judge := func(g2 *ssa.Function, isM, isQ func(ssa.Instruction) bool) []string {
+					var out []string
+					okp := enumPaths(g2, nil, func(in ssa.Instruction) bool { return isM(in) || isQ(in) }, nil, func(e pathExit) {
+						if _, isRet := e.Last.(*ssa.Return); !isRet {
+							return
 						}
-						if markEv(ev) {
-							marked = true
+						marked, closedQ := false, false
+						for _, ev := range e.State.Events {
+							if isQ(ev) {
+								closedQ = true
+							}
+							if isM(ev) {
+								marked = true
+							}
 						}
+						if marked && !closedQ {
+							out = append(out, fmt.Sprintf("%s: a path through %s closes the connection without closing its in-queue (%s): a Read blocked on the queue — the multiplexer's receive loop — is never released, one goroutine and one session stay behind per ended DNS session", w.Pos(e.Last.Pos()), ssaFuncKey(g2), qf.Name()))
+						}
+					})
+					if !okp {
+						out = append(out, fmt.Sprintf("%s: path budget exceeded", ssaFuncKey(g2)))
 					}
-					if marked && !closedQ {
-						bad = append(bad, fmt.Sprintf("%s: a path through %s closes the connection without closing its in-queue (%s): a Read blocked on the queue — the multiplexer's receive loop — is never released, one goroutine and one session stay behind per ended DNS session", w.Pos(e.Last.Pos()), ssaFuncKey(g), qf.Name()))
-					}
-				})
-				if !okp {
-					bad = append(bad, fmt.Sprintf("%s: path budget exceeded", ssaFuncKey(g)))
+					return out
 				}
+				badHere = judge(g, markEv, qEv)
+				if len(badHere) > 0 && g.Name() != "Close" {
+					// a setter (`u.markClosed()`): the queue may be closed by every caller, next to the call
+					gobj := fnObj(g)
+					ncall, all := 0, true
+					for _, h := range dnsFns {
+						if h == g {
+							continue
+						}
+						callsG := func(in ssa.Instruction) bool {
+							c, ok := in.(ssa.CallInstruction)
+							return ok && gobj != nil && sCallee(c) == gobj
+						}
+						has := false
+						allInstrs(h, func(in ssa.Instruction) {
+							if callsG(in) {
+								has = true
+							}
+						})
+						if !has {
+							continue
+						}
+						ncall++
+						hq := func(in ssa.Instruction) bool {
+							return isQueueClose(in) || helperDoes(h, in, func(h2 *ssa.Function) func(ssa.Instruction) bool { return isQueueClose })
+						}
+						if len(judge(h, callsG, hq)) > 0 {
+							all = false
+						}
+					}
+					if ncall > 0 && all {
+						badHere = nil
+					}
+				}
+				bad = append(bad, badHere...)
 			}
 			bad = uniqStrings(bad)
 			sort.Strings(bad)
@@ -5797,4 +5837,17 @@ func structNamedOf(t types.Type) *types.Named {
 	}
 	n, _ := t.(*types.Named)
 	return n
+}
+
+var sortedModuleFuncsMemo = map[*ssa.Program][]*ssa.Function{}
+
+// sortedModuleFuncs: allModuleFuncs in source order — verdict messages must not depend on map iteration order
+// (several rules keep the last problem they meet).
+func sortedModuleFuncs(w *World, prog *ssa.Program) []*ssa.Function {
+	if v, ok := sortedModuleFuncsMemo[prog]; ok {
+		return v
+	}
+	v := sortedFuncs(allModuleFuncs(w, prog))
+	sortedModuleFuncsMemo[prog] = v
+	return v
 }
